@@ -594,6 +594,24 @@ def run_case(case, ctx):
                     raise
                 except Exception:
                     pass
+                # ... and a parameter that lives in ANOTHER map under the same key is offered here: refused as well, and the
+                # offered parameter stays where it was (the tree walk below compares every extended key)
+                def _all(n):
+                    for c in n.children:
+                        yield n, c
+                        if c.kind == "map":
+                            yield from _all(c)
+                other = next((c for par, c in _all(root) if c.key == node.key and c is not node and par is not parent), None)
+                if other is not None:
+                    ctx.count("adds_of_a_parameter_living_in_another_map")
+                    try:
+                        parent.obj.add(other.obj)
+                        ctx.viol("duplicate-key-accepted", {"op_index": opi, "op": op, "offered": "a parameter of another map"})
+                        return
+                    except InvariantBroken:
+                        raise
+                    except Exception:
+                        pass
         except InvariantBroken as e:
             ctx.viol("class-invariant-broken", {"op_index": opi, "op": op, "exc": str(e)[:300]})
             return
